@@ -51,6 +51,16 @@ def run(R):
             if lib is None or lib["len"] != len("// placeholder\n"):
                 bad = "blueprint rejected but the SDK's src/lib.rs was modified"
         if bad:
+            kf = pxvlib.corpus_known(R, o)
+            if kf is None and o["klass"].startswith("planted:"):
+                try:  # violations planted by the C08 family may hit a finding recorded by that slice
+                    from checks import c08
+                    kf = c08.match_known_for(R, o) if hasattr(c08, "match_known_for") else None
+                except ImportError:
+                    kf = None
+            if kf is not None:
+                R.known_hit(kf, o.get("corpus") or o["name"])
+                continue
             R.coverage["impl_vs_oracle_failures"] += 1
             n_viol += 1
             if n_viol <= 3:
